@@ -20,7 +20,6 @@ import (
 
 	"github.com/arloliu/go-secs/v2/hsms"
 	"github.com/arloliu/go-secs/v2/secs2"
-	"github.com/arloliu/go-secs/v2/zverif/vsched"
 
 	"verif/e2"
 	"verif/e3"
@@ -309,9 +308,6 @@ func TestCheck(t *testing.T) {
 			bound = 2
 		}
 		for _, sc := range scenarios() {
-			// also around the library-first canonical schedule (the peer acts as late as possible)
-			// with sticky departures (a preempted goroutine stays preempted while anything else runs)
-			sc.Policies = []string{"", vsched.LibFirst + vsched.Sticky}
 			st := e3.Explore(c, t, sc, bound)
 			c.Add("e3_executions", int64(st.Execs))
 		}
